@@ -109,11 +109,11 @@ func init() {
 	control(&Control{ID: "limitstrict-geq", Rule: "LIMIT-STRICT", File: "larking/mux.go",
 		Old: "if total > int64(o.maxReceiveMessageSize) {", New: "if total >= int64(o.maxReceiveMessageSize) {", Expect: "readAll/limit-guard", Why: "a body exactly at the limit is refused"})
 	control(&Control{ID: "limitimpl-proto", Rule: "LIMIT-IMPL", File: "larking/codec.go",
-		Old: "if size > math.MaxInt || (limit > 0 && size > uint64(limit)) {", New: "if size > math.MaxInt {", Expect: "CodecProto).ReadNext/limit-on-every-success-path", Why: "CodecProto ignores its limit"})
+		Old: "if size > math.MaxInt || limit < 0 || size > uint64(limit) {", New: "if size > math.MaxInt {", Expect: "CodecProto).ReadNext/limit-on-every-success-path", Why: "CodecProto ignores its limit"})
 	control(&Control{ID: "limitdefaults-swap", Rule: "LIMIT-DEFAULTS", File: "larking/mux.go",
 		Old: "return func(opts *muxOptions) { opts.maxSendMessageSize = s }", New: "return func(opts *muxOptions) { opts.maxReceiveMessageSize = s }", Expect: "MaxSendMessageSizeOption", Why: "send option overwrites the receive limit"})
 	control(&Control{ID: "signconv-restore", Rule: "SIGNCONV", File: "larking/codec.go",
-		Old: "if size > math.MaxInt || (limit > 0 && size > uint64(limit)) {", New: "if int(size) > math.MaxInt32 || (limit > 0 && int(size) > limit) {", Expect: "conv:uint64->int", Why: "restore D23"})
+		Old: "if size > math.MaxInt || limit < 0 || size > uint64(limit) {", New: "if int(size) > math.MaxInt32 || limit < 0 || int(size) > limit {", Expect: "conv:uint64->int", Why: "restore D23"})
 
 	// ---- C09 ----
 	control(&Control{ID: "commaok-restore-d9", Rule: "COMMAOK-SERVE", File: "larking/http.go",
